@@ -20,10 +20,11 @@ type AsyncSetup struct {
 	Layout     bool   // logger-level layout: events reach the appender as formatted bytes
 	Second     bool   // a second, ungated recording appender behind the gate (direct mode only)
 	Prefill    int    // events submitted before the generated actions start (initial occupancy)
+	Restart    bool   // direct mode: the logger value has been through a Start/Stop cycle before (an AsyncLogger value may be started again)
 }
 
 func (s AsyncSetup) String() string {
-	return fmt.Sprintf("policy=%s size=%d viaRefresh=%v layout=%v second=%v prefill=%d", s.Policy, s.Size, s.ViaRefresh, s.Layout, s.Second, s.Prefill)
+	return fmt.Sprintf("policy=%s size=%d viaRefresh=%v layout=%v second=%v prefill=%d restart=%v", s.Policy, s.Size, s.ViaRefresh, s.Layout, s.Second, s.Prefill, s.Restart)
 }
 
 // Action kinds: "ev" enabled event, "dis" event below the logger's level, "raw" raw write,
@@ -158,6 +159,28 @@ func RunAsyncHistory(setup AsyncSetup, tagName, handleName string, actions []Asy
 		if err := direct.Start(); err != nil {
 			res.Violation = "Start failed: " + err.Error()
 			return res
+		}
+		if setup.Restart {
+			// an earlier life of the same value: one event through it, stopped, started again
+			e := log.GetEvent()
+			e.Level, e.Time, e.Tag, e.Fields = log.InfoLevel, time.Unix(0, 0), tagName, []log.Field{log.Int("id", -7)}
+			gate.Release <- struct{}{}
+			direct.Append(e)
+			if done, _ := Within(waitLimit, direct.Stop); !done {
+				res.Hang = "Stop of the logger's first life did not return"
+				return res
+			}
+			ResetRecsKeepLive()
+			for len(gate.Entered) > 0 {
+				<-gate.Entered
+			}
+			for len(gate.Done) > 0 {
+				<-gate.Done
+			}
+			if err := direct.Start(); err != nil {
+				res.Violation = "second Start of the same logger value failed: " + err.Error()
+				return res
+			}
 		}
 		submitEvent = func(id int64, enabled bool) {
 			e := log.GetEvent()
